@@ -264,6 +264,7 @@ func network(h *hx.H) {
 	}
 	h.Res.Extra["network_rounds"] = rounds
 	subscribeDuringBroadcast(h)
+	connLanes(h)
 	_ = protocol.MsgTypeReserved
 }
 
@@ -308,5 +309,76 @@ func subscribeDuringBroadcast(h *hx.H) {
 			h.Fail("C17:broadcast-count", fmt.Sprintf("a collector whose Subscribe overlapped AddTask was handed the broadcast task %d times", n))
 		}
 		ls.RemoveTask(taskID(t))
+	}
+}
+
+// connLanes: a real Conn pair over loopback; messages sent on the normal and on the priority lane in a random
+// interleaving must arrive complete and in order lane by lane (the Lean model's C17_connection_order_per_lane)
+func connLanes(h *hx.H) {
+	fail := func(key, desc string) { h.Fail("C17:"+key, desc) }
+	addr := freePort()
+	l, err := fractal.NewListener("tcp", addr)
+	if err != nil {
+		fail("net-setup", err.Error())
+		return
+	}
+	defer l.Close()
+	type acc struct {
+		c      *connection.Conn
+		cancel context.CancelFunc
+		err    error
+	}
+	ac := make(chan acc, 1)
+	go func() { c, cancel, err := l.Accept(); ac <- acc{c, cancel, err} }()
+	out, cancelOut, err := fractal.NewDialer(connection.DialAddress(addr), connection.DialNetwork("tcp"), connection.DialTimeout(3*time.Second)).Dial()
+	if err != nil {
+		fail("net-setup", err.Error())
+		return
+	}
+	in := <-ac
+	if in.err != nil {
+		fail("net-setup", in.err.Error())
+		return
+	}
+	ctx := context.Background()
+	n := 400
+	var sent [2][]int
+	go func() {
+		for i := 0; i < n; i++ {
+			laneNo := h.Rng.Intn(2)
+			msg := []byte{byte(laneNo), byte(i >> 8), byte(i)}
+			if laneNo == 1 {
+				out.SendPriority(ctx, msg)
+			} else {
+				out.Send(ctx, msg)
+			}
+		}
+	}()
+	var got [2][]int
+	for i := 0; i < n; i++ {
+		rctx, c := context.WithTimeout(ctx, 8*time.Second)
+		b, err := in.c.Read(rctx)
+		c()
+		if err != nil || len(b) != 3 {
+			fail("conn-message-lost", fmt.Sprintf("only %d of %d messages arrived over the connection (%v)", i, n, err))
+			break
+		}
+		got[b[0]&1] = append(got[b[0]&1], int(b[1])<<8|int(b[2]))
+	}
+	_ = sent
+	h.Res.OracleEvals++
+	for laneNo := 0; laneNo < 2; laneNo++ {
+		for i := 1; i < len(got[laneNo]); i++ {
+			if got[laneNo][i] <= got[laneNo][i-1] {
+				fail("conn-lane-order", fmt.Sprintf("lane %d: message %d arrived after message %d", laneNo, got[laneNo][i], got[laneNo][i-1]))
+				break
+			}
+		}
+	}
+	if len(got[0])+len(got[1]) != n {
+		fail("conn-message-lost", fmt.Sprintf("%d of %d messages arrived", len(got[0])+len(got[1]), n))
+	}
+	if !guard(5*time.Second, func() { cancelOut(); in.cancel() }) {
+		fail("stop-hangs", "stopping a connection did not return within 5 s")
 	}
 }
